@@ -65,6 +65,8 @@ def ops_strategy():
 		st.tuples(st.just('invoke'), c, fac, st.sampled_from(['ok', 'ok', 'ok', 'short', 'long', 'type'])),
 		st.tuples(st.just('combine'), c, c),
 		st.tuples(st.just('combine'), c, c),
+		# invoke f, unbind one of the symbols invoke just injected into f, invoke f again (nothing is bound in between)
+		st.tuples(st.just('invoke_unbind_invoke'), c, fac, st.integers(0, 3)),
 	)
 	low_sym = st.integers(0, 2)
 	leaf = st.sampled_from(['f0', 'f0b', 'K0', 'm0', 'f1', 'K1', 'm1'])
@@ -410,17 +412,26 @@ def run_history(case) -> tuple[list[tuple[str, str]], dict, list[str]]:
 	r = Runner(bool(lazy))
 	r.new([tuple(d) for d in defs])
 	applied = 0
-	for op in ops:
-		op = tuple(op)
-		try:
-			bad = r.step(op)
-		except Skip:
-			continue
-		applied += 1
-		if bad is None:
-			bad = r.observe()
-		if bad is not None:
-			return [(bad[0], f'{bad[1]}\n  history ({"LazyDI" if lazy else "DI"}): ' + '; '.join(r.trace))], r.flags, r.trace
+	for op0 in ops:
+		op0 = tuple(op0)
+		steps = [op0]
+		if op0[0] == 'invoke_unbind_invoke':
+			ci = op0[1] % len(r.real)
+			curried, _ = r.m.plan_invoke(r.model[ci], op0[2], None, True)
+			if not curried:
+				continue
+			steps = [('invoke', op0[1], op0[2], 'ok'), ('unbind', op0[1], curried[op0[3] % len(curried)], False), ('invoke', op0[1], op0[2], 'ok')]
+			r.flags['invoke_after_unbind_of_dependency'] = True
+		for op in steps:
+			try:
+				bad = r.step(op)
+			except Skip:
+				break
+			applied += 1
+			if bad is None:
+				bad = r.observe()
+			if bad is not None:
+				return [(bad[0], f'{bad[1]}\n  history ({"LazyDI" if lazy else "DI"}): ' + '; '.join(r.trace))], r.flags, r.trace
 	bad = r.final() or r.observe()
 	if bad is not None:
 		return [(bad[0], f'{bad[1]}\n  history ({"LazyDI" if lazy else "DI"}): ' + '; '.join(r.trace))], r.flags, r.trace
